@@ -784,7 +784,16 @@ nnls_normal_block3(cholmod_sparse *AtA, cholmod_dense *Atb, int verbose,
         double kkt_tolerance, x_tolerance, y_min, residual;
 
         /* XXX: make these settable? */
-        max_iter = 120;                /* Maximum number of iterations */
+        /*
+         * Maximum number of iterations. Where only the neighbours of the
+         * current support have negative multipliers (banded systems), one
+         * coefficient is released per iteration, so a fixed budget cuts the
+         * search short whenever the solution has more non-zero coefficients
+         * than that, and a non-optimal vector would be returned.
+         */
+        max_iter = 120;
+        if (max_iter < 2*nvar)
+                max_iter = 2*nvar;
         solves = 0;
         residual_calcs = 0;
         residual = DBL_MAX;
